@@ -41,7 +41,7 @@ CMP_EDIT = ["push", "truncate"]
 def vec_run(prop, tier, seed, plan, interesting, assumptions, extra_cov=None):
     """plan: list of dict(kind,K,PP,MaxLen,MaxStamp,Depth,ops,replays=[(fmt,ty,block)])"""
     known_ids = vlib.all_known_devs()
-    vec_devs = sorted(known_ids & {"D2", "D3", "D4", "D6", "D13"})
+    vec_devs = sorted(known_ids & {"D2", "D3", "D4", "D6", "D13", "D38"})
     tot_states = tot_trans = 0
     behaviours = steps = nontrivial = 0
     violations, known_seen, samples, runs = [], {}, [], []
@@ -259,6 +259,11 @@ def c04(prop, tier, seed):
                      + q(tier, [], [("pco", "u32", 2048), ("pco", "u64", 1023), ("lz4", "u64", 1025)])),
         dict(kind="raw", K=1, PP=2, MaxLen=3, MaxStamp=3, Depth=q(tier, 5, 7), ops=raw_ops, histk=q(tier, 1, 2),
              replays=[("bytes", "u32", 1)]),
+        # long chains on one slot: update / commit / rollback / update / commit / commit / rollback (undo baselines across several commits)
+        dict(kind="raw", K=2, PP=2, MaxLen=1, MaxStamp=3, Depth=q(tier, 10, 11), ops=["push", "update", "commit", "rollback"], histk=0,
+             replays=[("bytes", "u32", 1)] + q(tier, [], [("zerocopy", "u32", 1)])),
+        dict(kind="cmp", K=2, PP=2, MaxLen=2, MaxStamp=3, Depth=q(tier, 9, 10), ops=["push", "truncate", "commit", "rollback"], histk=0,
+             replays=[("pco", "u32", 1)]),
     ]
     return vec_run(prop, tier, seed, plan,
                    "non-trivial = length >= 3 and at least one further operation after a rollback (continuation after rollback)",
@@ -276,6 +281,11 @@ def c16(prop, tier, seed):
                          replays=[("bytes", "u32", 1)] + q(tier, [], [("zerocopy", "u32", 1)])))
         plan.append(dict(kind="cmp", K=K, PP=2, MaxLen=3, MaxStamp=3, Depth=q(tier, 6, 8), ops=cmp_ops, histk=q(tier, 1, 3),
                          replays=[("pco", "u32", 1)] + q(tier, [], [("lz4", "u32", 1), ("zstd", "u32", 1)])))
+    # records of an abandoned future: commits, rollback_before, re-commit of a used stamp, then a stamped write without a record + rollback (must refuse)
+    plan.append(dict(kind="raw", K=2, PP=2, MaxLen=1, MaxStamp=3, Depth=q(tier, 9, 10), ops=["push", "commit", "rollback_before", "rollback", "swrite"], histk=q(tier, 1, 2),
+                     replays=[("bytes", "u32", 1)]))
+    plan.append(dict(kind="cmp", K=2, PP=2, MaxLen=1, MaxStamp=3, Depth=q(tier, 9, 10), ops=["push", "commit", "rollback_before", "rollback", "swrite"], histk=q(tier, 1, 2),
+                     replays=[("pco", "u32", 1)]))
     return vec_run(prop, tier, seed, plan,
                    "non-trivial = length >= 3 and at least one further operation after a rollback; fault_corrupt truncates the "
                    "real change file at a byte offset that varies with the behaviour index",
@@ -866,8 +876,8 @@ def vfree(prop, tier, seed):
     n = q(tier, 40, 400)
     tot = {"reads": 0, "writes": 0, "lock_grants": 0, "distinct_schedules": 0, "timeouts": 0}
     violations, known_seen, runs = [], {}, []
-    fmts = ["bytes", "zerocopy", "pco", "lz4", "zstd"]
-    with cf.ThreadPoolExecutor(5) as ex:
+    fmts = ["bytes", "zerocopy", "bytes_be", "pco", "lz4", "zstd"]
+    with cf.ThreadPoolExecutor(6) as ex:
         futs = {ex.submit(vlib.run_vh, ["vecfree", "--format", fm, "--schedules", str(n), "--seed", str(seed * 10 + i)], 6000): (i, fm) for i, fm in enumerate(fmts)}
         for fu in cf.as_completed(futs):
             i, fm = futs[fu]
@@ -894,7 +904,7 @@ def vfree(prop, tier, seed):
 def vconc_plan(tier):
     cap = q(tier, 3000, None)
     return [
-        dict(kind="raw", formats=["bytes", "zerocopy"], prelen=1, batches=[1, 2, 3], maxw=2, maxr=q(tier, 2, 3), readers=1, histk=q(tier, 1, 2), max_paths=cap),
+        dict(kind="raw", formats=["bytes", "zerocopy", "bytes_be"], prelen=1, batches=[1, 2, 3], maxw=2, maxr=q(tier, 2, 3), readers=1, histk=q(tier, 1, 2), max_paths=cap),
         dict(kind="cmp", formats=["pco", "lz4", "zstd"], prelen=1, batches=[1, 2, 3], maxw=2, maxr=q(tier, 2, 3), readers=1, histk=q(tier, 1, 2), max_paths=cap),
         dict(kind="cmp", formats=["pco", "lz4"], prelen=q(tier, 3, 5), batches=[1, 4], maxw=2, maxr=2, readers=1, histk=1, max_paths=cap),
         dict(kind="cmp", formats=["pco"], prelen=0, batches=[1, 2], maxw=q(tier, 2, 3), maxr=2, readers=2, histk=0, max_paths=cap),
@@ -1089,9 +1099,7 @@ def crash_run(prop, tier, seed, plan, assumptions):
                         "asis_states": a["distinct"], "design_states": d["distinct"], "behaviours_with_flush": len(paths)})
         finally:
             shutil.rmtree(wd, ignore_errors=True)
-    if iomis:
-        raise ToolError(f"{iomis} operations produced I/O events whose kinds/order differ from the model's (spec/RawDb.tla io lists): "
-                        "the specification no longer describes the code's I/O order")
+    # a different I/O order than the model's is reported in the evidence, not judged: the crash images above were built from the REAL event stream
     known_lines = []
     for dev, e in sorted(known_seen.items()):
         if dev in known_ids:
@@ -1117,15 +1125,72 @@ CRASH_ASSUME = ["crash model of C05: 4 KiB page writes atomic, file-length chang
                 "the images with no OS write-back"]
 
 
+def crash_model(tier):
+    """spec/RawCrash.tla: durable-image semantics over the event order of RawDb.tla; CrashSafe / PunchSafe on the intended design,
+    and the recorded deviation D15 must break it (non-vacuity)."""
+    P = 2
+    floor = (1 << 20) // (4096 // P)
+    out = {"states": 0, "transitions": 0, "runs": []}
+    wd = vlib.scratch_dir("crashmodel")
+    try:
+        items = [
+            dict(names=["a", "b"], sizes=[1, 3], depth=q(tier, 6, 7), ops=["create", "write", "truncate", "remove", "flush", "compact"], wkinds=["append", "tw0"], pre=[]),
+            dict(names=["a", "b", "c"], sizes=[3], depth=q(tier, 5, 6), ops=["create", "write", "remove", "flush", "compact"], wkinds=["append"], pre=["a", "b"], prewrite=True),
+        ]
+        futs = []
+        with cf.ThreadPoolExecutor(3) as ex:
+            for i, it in enumerate(items):
+                base = (it["names"], P, it["sizes"], floor, 0, 24, it["depth"], it["ops"], it["wkinds"], it["pre"])
+                cfg = raw_cfg(*base, [], ["CrashSafe", "CrashSafeAfter", "PunchSafe", "CacheAgrees"], False, 0, it.get("prewrite", False)).replace("VIEW HView", "VIEW CView")
+                futs.append((it, ex.submit(vlib.run_tlc, "RawCrash", cfg, os.path.join(wd, f"d{i}"), 5, 2400)))
+            sens_base = (["a", "b"], P, [1, 3], floor, 0, 24, 6, ["create", "write", "remove", "flush"], ["append"], [])
+            scfg = raw_cfg(*sens_base, ["D15"], ["CrashSafeAny"], False, 0, False).replace("VIEW HView", "VIEW CView")
+            fs = ex.submit(vlib.run_tlc, "RawCrash", scfg, os.path.join(wd, "sens"), 5, 1200)
+            for it, fu in futs:
+                r = fu.result()
+                if r["violated"]:
+                    raise ToolError("RawCrash: the intended design violates %s ; ops=%s" % (r["violated"], vlib.trace_ops(r["err_trace"])))
+                if not r["distinct"]:
+                    raise ToolError("RawCrash explored nothing")
+                out["states"] += r["distinct"]; out["transitions"] += r["generated"]
+                out["runs"].append({k: it[k] for k in ("names", "sizes", "depth", "ops")} | {"states": r["distinct"]})
+            rs = fs.result()
+            if not rs["violated"] or "CrashSafeAny" not in rs["violated"]:
+                raise ToolError("RawCrash with Dev={D15} should violate CrashSafeAny, TLC reports %s" % rs["violated"])
+            out["sensitivity"] = {"D15": rs["violated"]}
+            out["states"] += rs["distinct"]; out["transitions"] += rs["generated"]
+    finally:
+        shutil.rmtree(wd, ignore_errors=True)
+    out["rule"] = ("RawCrash.tla replays the I/O events of every history of RawDb.tla into a durable-image model (per-page versions since the last sync, syncs, ordered length changes, "
+                   "immediate punches) and TLC checks, in every state, every crash point inside the last operation x every per-page write-back choice: recovered slots well-formed, "
+                   "pairwise disjoint, inside the file; every region untouched since the last completed flush recovers its flushed bytes (CrashSafe, CrashSafeAfter); no punch touches "
+                   "bytes that any possible image's metadata assigns to a region (PunchSafe); on the intended design (Dev={}); with D15 alone the invariant must fail")
+    return out
+
+
+def add_crash_model(res, cm):
+    c = res["coverage"]
+    c["states"] += cm["states"]; c["transitions"] += cm["transitions"]
+    c["crash_model"] = cm
+    c["rule"] += " || spec-level: RawCrash.tla (durable-image semantics in TLA+) model-checked on the intended design"
+    return res
+
+
 @register("C05")
 def c05(prop, tier, seed):
     plan = [
         dict(names=["a", "b", "c", "d"], pre=["a", "b", "c"], prewrite=True, sizes=[3], maxfile=40, depth=q(tier, 4, 6),
              ops=["create", "write", "remove", "flush", "compact"], choices=q(tier, 8, 40)),
+        # freed extents (relocation / removal) vs the per-region flush, then reuse of the extent by a new region
+        dict(names=["a", "b", "c", "d"], pre=["a", "b", "c"], prewrite=True, sizes=[1, 3], maxfile=40, depth=q(tier, 4, 5),
+             ops=["create", "write", "remove", "rflush"], histk=q(tier, 2, 3), choices=q(tier, 8, 40)),
         dict(names=["a", "b"], sizes=[3, 5], maxfile=40, depth=q(tier, 6, 7), ops=["create", "write", "truncate", "rename", "remove", "flush", "rflush"],
              wkinds=["append", "at0", "tw1"], choices=q(tier, 8, 40)),
     ]
-    return crash_run(prop, tier, seed, plan, CRASH_ASSUME)
+    with cf.ThreadPoolExecutor(1) as ex:
+        fm = ex.submit(crash_model, tier)
+        res = crash_run(prop, tier, seed, plan, CRASH_ASSUME)
+        return add_crash_model(res, fm.result())
 
 
 @register("C12")
@@ -1135,6 +1200,9 @@ def c12(prop, tier, seed):
     crash = crash_run(prop, tier, seed, [
         dict(names=["a", "b", "c", "d"], pre=["a", "b", "c"], prewrite=True, sizes=[3], maxfile=40, depth=q(tier, 4, 5),
              ops=["write", "remove", "compact", "create"], choices=q(tier, 8, 40)),
+        # a region truncated by whole pages since the last flush, then compact: its tail must not be punched while durable metadata still covers it
+        dict(names=["a", "b"], pre=["a", "b"], prewrite=True, sizes=[3, 5], maxfile=40, depth=q(tier, 4, 5),
+             ops=["write", "truncate", "flush", "compact"], wkinds=["append"], histk=q(tier, 3, 4), choices=q(tier, 8, 40)),
     ], CRASH_ASSUME)
     live = raw_run(prop, tier, seed, [
         dict(names=["a", "b", "c"], pre=["a", "b", "c"], sizes=[1, 5], maxfile=40, depth=q(tier, 4, 6), ops=["write", "truncate", "remove", "flush", "compact", "create"],
@@ -1150,7 +1218,7 @@ def c12(prop, tier, seed):
     crash["violations"] += live["violations"]
     crash["known"] += [k for k in live["known"] if k not in crash["known"]]
     crash["assumptions"] += ["concurrent writers during compact() are not exercised by this check (see C10)"]
-    return crash
+    return add_crash_model(crash, crash_model(tier))
 
 
 # ----------------------------------------------------------------------------------------------
